@@ -42,6 +42,7 @@ ASSUMPTIONS = [
     "for a Cover the reported position is read after the patched clock moved past the travel time",
     "for a Climate whose target temperature address is not writable only the setpoint shift is expected to follow the request",
     "DPT 9 tolerance: half a step at the smallest exponent whose 11-bit mantissa (<= 2047) holds |value| * 100",
+    "DPT 14 tolerance: float32 rounding plus half a unit of the 7th significant digit (xknx reports 4-byte floats rounded to 7 significant digits, like the ETS group monitor)",
 ]
 
 EPS = Fraction(1, 10**9)
@@ -57,6 +58,19 @@ def dpt9_tol(v) -> Fraction:
     while x / 2**e > 2047 and e < 15:
         e += 1
     return Fraction(2**e, 200)
+
+
+def f32_tol(v) -> Fraction:
+    """DPT 14: float32 rounding plus the 7 significant digits xknx reports (as the ETS group monitor)."""
+    x = abs(Fraction(v))
+    if x == 0:
+        return Fraction(1, 10**30)
+    d = 0  # smallest d with 10^d >= |v|  (= ceil(log10|v|))
+    while Fraction(10) ** d < x:
+        d += 1
+    while Fraction(10) ** (d - 1) >= x:
+        d -= 1
+    return x / 2**24 + Fraction(10) ** (d - 7) / 2
 
 
 def scaled_int_tol(span: int) -> Fraction:
@@ -338,7 +352,10 @@ async def step(xknx, d, dev: str, cfg: dict, setter: str, val, clock: Clock):
     from xknx.dpt import DPTArray
     from xknx.dpt.dpt_20 import HVACControllerMode, HVACOperationMode
 
-    nontrivial = bool(val) if not isinstance(val, list) else any(bool(x) for x in val)
+    if val is None:
+        nontrivial = setter not in ("off", "turn_off")
+    else:
+        nontrivial = bool(val) if not isinstance(val, list) else any(bool(x) for x in val)
     # ---- call ----
     if setter in ("on", "off"):
         await (d.set_on() if setter == "on" else d.set_off())
@@ -496,7 +513,7 @@ async def step(xknx, d, dev: str, cfg: dict, setter: str, val, clock: Clock):
         elif kind == "dpt9":
             ok = close(cur, val, dpt9_tol(val))
         else:
-            ok = close(cur, val, abs(Fraction(val)) / 2**23 + Fraction(1, 10**30))
+            ok = close(cur, val, f32_tol(val))
         expect(ok, f"NumericValue:{cfg['value_type']}", f"{what}: state {cur!r}")
     elif dev == "scene":
         cur = d.scene_value.value
@@ -579,6 +596,8 @@ def selftest(ctx) -> None:
     assert close(0.3, 0.30000000000000004, Fraction(0))
     assert not close(0.2, 0.3, Fraction(1, 20))
     assert close(33, 33.3, scaled_int_tol(100)) and not close(32, 33.3, scaled_int_tol(100))
+    assert close(-403268.8, -403268.75, f32_tol(-403268.75)) and not close(-403268.9, -403268.75, f32_tol(-403268.75))
+    assert close(0.3320312, 0.33203125, f32_tol(0.33203125)) and not close(0.332031, 0.33203125, f32_tol(0.33203125))
 
 
 def run(ctx) -> None:
